@@ -10,7 +10,7 @@ INF = float("inf")
 
 DEFAULT_PROFILE = dict(
     maxD=3,
-    coord_classes=("linear", "tight", "log", "posnolog", "unbounded"),
+    coord_classes=("linear", "tight", "log", "posnolog", "unbounded", "zerolb"),
     allow_mixed_unbounded=False,  # bounded + unbounded coordinates in one problem (C08 cell)
     p_plausible_omitted=0.12,
     x0_classes=("interior", "on_lb", "on_ub", "near", "near2", "at_plb", "at_pub", "out_plausible"),
@@ -118,6 +118,13 @@ def coord(draw, cls, scale_exp):
         plb = lb * draw(st.sampled_from([1.0, 1.2, 2.0]))
         pub = plb * draw(st.sampled_from([1.5, 3.0, 9.0, 9.99]))
         ub = pub * draw(st.sampled_from([1.0, 1.1, 5.0]))
+    elif cls == "zerolb":
+        # hard lower bound exactly 0 with a plausible range of a decade or more: NOT log-scaled (the rule needs all four
+        # bounds strictly positive), although everything but the lower bound looks like a log variable
+        lb = 0.0
+        plb = W * draw(st.sampled_from([1.0, 0.37, 2.0]))
+        pub = plb * draw(st.sampled_from([10.0, 30.0, 1e3, 77.3]))
+        ub = pub * draw(st.sampled_from([1.0, 2.0, 10.0, 1.37]))
     elif cls == "unbounded":
         centre = draw(st.sampled_from([0.0, 0.0, 1.0, -3.0, 50.0])) * W
         lb, ub = -INF, INF
